@@ -185,6 +185,11 @@ func init() {
 	reg("varint.dec", Full, func(a []string) (string, []string) {
 		r := mkReader(unhx(a[0]))
 		v, err := varint.FromReader(r)
+		// the slice entry point on the same bytes (a panic in it is this op's panic)
+		fb, fbErr := varint.FromBytes(unhx(a[0]))
+		if (fbErr != nil) != (err != nil) || (err == nil && fb != v) {
+			return "err", []string{fmt.Sprintf("varint.FromBytes and varint.FromReader differ on the same bytes: (%d, %v) / (%d, %v)", uint64(fb), fbErr, uint64(v), err)}
+		}
 		if err != nil {
 			return "err", nil
 		}
